@@ -70,6 +70,31 @@ import (
 	"verifharness/internal/prng"
 )
 
+// curMinPrice is the consensus MinGasPrice of the history being built / used (one at a time).
+var curMinPrice uint64
+
+// priced raises a fee to the history's minimum gas price (fee.amount / fee.gas >= MinGasPrice).
+func priced(f *transaction.Fee) *transaction.Fee {
+	if f == nil || curMinPrice == 0 || f.Gas == 0 {
+		return f
+	}
+	need := new(big.Int).Mul(new(big.Int).SetUint64(uint64(f.Gas)), new(big.Int).SetUint64(curMinPrice))
+	if f.Amount.ToBigInt().Cmp(need) < 0 {
+		need.Add(need, f.Amount.ToBigInt()) // keep the random part on top
+		q := quantity.NewQuantity()
+		_ = q.FromBigInt(need)
+		f.Amount = *q
+	}
+	return f
+}
+
+// sgn signs a transaction after raising its fee to the minimum gas price. The deliberately
+// underpriced variants and the gas sweep sign with muxdrv.Sign directly.
+func sgn(k *muxdrv.Key, tx *transaction.Transaction) []byte {
+	tx.Fee = priced(tx.Fee)
+	return muxdrv.Sign(k, tx)
+}
+
 // ---------------------------------------------------------------- scenario
 
 type scen struct {
@@ -84,6 +109,7 @@ type scen struct {
 	hash  [][]byte
 	res   [][]muxdrv.TxResult // B's transaction results per height
 	blockGas uint64
+	minPrice uint64 // consensus MinGasPrice of this history
 	B     *muxdrv.Replica
 
 	fresh, fresh2 *muxdrv.Validator
@@ -129,7 +155,23 @@ func buildScenario(seed uint64, n int) (*scen, error) {
 		// gas a FAILED transaction consumes can push a later transaction over the limit
 		opts.MaxBlockGas = blockGasLimit
 	}
+	minPrice := []uint64{0, 1, 1000}[seed%3]
+	opts.ConsensusMinGasPrice = minPrice
+	curMinPrice = minPrice
 	opts.Mutate = func(doc *genesis.Document) {
+		if minPrice > 0 {
+			// fees of gas*price need deep pockets: every genesis account (but the nearly empty one)
+			// gets 10^13 more
+			poor := muxdrv.NewKey(fmt.Sprintf("verif/%d/acct/%d", seed, 9)).Address()
+			extra := mustQ(10_000_000_000_000)
+			for a, acct := range doc.Staking.Ledger {
+				if a.Equal(poor) {
+					continue
+				}
+				_ = acct.General.Balance.Add(&extra)
+				_ = doc.Staking.TotalSupply.Add(&extra)
+			}
+		}
 		// runtimes without a committee get suspended at the epoch transition
 		doc.RootHash.Parameters.DebugDoNotSuspendRuntimes = false
 		doc.RootHash.Parameters.MaxEvidenceAge = 20
@@ -144,7 +186,7 @@ func buildScenario(seed uint64, n int) (*scen, error) {
 	if err != nil {
 		return nil, err
 	}
-	s := &scen{seed: seed, g: g, N: n, blockGas: opts.MaxBlockGas, prop: int(seed % uint64(len(g.Validators)))}
+	s := &scen{seed: seed, g: g, N: n, blockGas: opts.MaxBlockGas, minPrice: minPrice, prop: int(seed % uint64(len(g.Validators)))}
 	s.fresh = muxdrv.NewValidator(seed, 0)
 	s.fresh2 = muxdrv.NewValidator(seed, 1)
 	s.nobody = muxdrv.NewKey(fmt.Sprintf("verif/%d/nobody", seed))
@@ -199,9 +241,9 @@ func buildScenario(seed uint64, n int) (*scen, error) {
 		a := k.Address()
 		tx := f(nonces[a])
 		nonces[a]++
-		return muxdrv.Sign(k, tx)
+		return sgn(k, tx)
 	}
-	fee := func() *transaction.Fee { return muxdrv.Fee(uint64(rng.Intn(60)), muxdrv.DefaultGas) }
+	fee := func() *transaction.Fee { return priced(muxdrv.Fee(uint64(rng.Intn(60)), muxdrv.DefaultGas)) }
 	acc := g.Accounts
 	v := g.Validators
 	s.ins = make([]*muxdrv.BlockInput, n+1)
@@ -244,7 +286,11 @@ func buildScenario(seed uint64, n int) (*scen, error) {
 			for _, k := range poor {
 				to := k.Address()
 				txs = append(txs, sign(acc[8].Key, func(n uint64) *transaction.Transaction {
-					return muxdrv.TxTransfer(n, fee(), to, 5000)
+					amt := uint64(5000)
+					if minPrice > 0 {
+						amt = 100_000_000_000 // these keys pay fees of gas*price too
+					}
+					return muxdrv.TxTransfer(n, fee(), to, amt)
 				}))
 			}
 			txs = append(txs, sign(acc[6].Key, func(n uint64) *transaction.Transaction {
@@ -958,9 +1004,9 @@ func (c *gctx) balAddr(a staking.Address) uint64 {
 func (c *gctx) fee() *transaction.Fee {
 	switch c.rng.Intn(4) {
 	case 0:
-		return muxdrv.Fee(0, muxdrv.DefaultGas)
+		return priced(muxdrv.Fee(0, muxdrv.DefaultGas))
 	default:
-		return muxdrv.Fee(uint64(1+c.rng.Intn(200)), muxdrv.DefaultGas)
+		return priced(muxdrv.Fee(uint64(1+c.rng.Intn(200)), muxdrv.DefaultGas))
 	}
 }
 
@@ -1647,7 +1693,7 @@ func (c *gctx) validBase() built {
 	case 0:
 		return built{label: "transfer", key: k, tx: muxdrv.TxTransfer(n, f, acc[0].Address, 10+uint64(r.Intn(500))), hkind: 2}
 	case 1:
-		return built{label: "burn", key: k, tx: muxdrv.TxBurn(n, f, 1+uint64(r.Intn(500))), hkind: 2}
+		return built{label: "burn", key: k, tx: muxdrv.TxBurn(n, f, 10+uint64(r.Intn(500))), hkind: 2}
 	case 2:
 		return built{label: "add-escrow", key: k, tx: muxdrv.TxAddEscrow(n, f, v[r.Intn(len(v))].EntityAddress(), 10+uint64(r.Intn(500))), hkind: 2}
 	case 3:
@@ -1680,17 +1726,50 @@ func (c *gctx) genCase() *Case {
 		}
 		return cs
 	}
+	if r.Chance(9) {
+		// UNDERPRICED variants of any class: fee.amount/fee.gas just below the consensus minimum,
+		// zero amount with gas > 0, and amount > 0 with gas = 0 (GasPrice() = 0 by definition; the
+		// transaction-size gas charge refuses it first). Delivered in a block like everything else:
+		// they pass authentication (fee + nonce) and must fail BEFORE the handler runs.
+		b := c.validBase()
+		if r.Chance(50) {
+			b = c.execFailingPick(false)
+		}
+		if c.h != cs.Height {
+			cs.Height, cs.Pos = c.h, r.Intn(len(s.user[c.h])+1)
+		}
+		gas := uint64(4 * muxdrv.DefaultGas)
+		var amount uint64
+		variant := r.Intn(3)
+		name := []string{"just-below", "zero-amount", "zero-gas"}[variant]
+		switch variant {
+		case 0:
+			if s.minPrice > 0 {
+				amount = gas*s.minPrice - 1 - uint64(r.Intn(3))
+			}
+		case 1:
+			amount = 0
+		default:
+			gas, amount = 0, 1+uint64(r.Intn(1000))
+		}
+		b.tx.Fee = muxdrv.Fee(amount, gas)
+		stage := "exec"
+		if variant == 2 {
+			stage = "gas"
+		}
+		return set(stage, "underpriced-"+name+"/"+b.label, muxdrv.Sign(b.key, b.tx), b)
+	}
 	switch p := r.Intn(100); {
 	case p < 50: // handler failures
 		b := c.execFailing()
 		if c.h != cs.Height {
 			cs.Height, cs.Pos = c.h, r.Intn(len(s.user[c.h])+1)
 		}
-		return set("exec", b.label, muxdrv.Sign(b.key, b.tx), b)
+		return set("exec", b.label, sgn(b.key, b.tx), b)
 	case p < 64: // gas limit sweep on an otherwise valid transaction
 		b := c.validBase()
 		cost := s.opCost[b.tx.Method][0]
-		size := uint64(len(muxdrv.Sign(b.key, b.tx)))
+		size := uint64(len(sgn(b.key, b.tx)))
 		var gas uint64
 		switch r.Intn(8) {
 		case 0:
@@ -1714,7 +1793,7 @@ func (c *gctx) genCase() *Case {
 			b.tx.Fee = &transaction.Fee{}
 		}
 		b.tx.Fee.Gas = transaction.Gas(gas)
-		raw := muxdrv.Sign(b.key, b.tx)
+		raw := sgn(b.key, b.tx)
 		stage := "gas"
 		if gas >= uint64(len(raw)) {
 			stage = "exec"
@@ -1733,45 +1812,45 @@ func (c *gctx) genCase() *Case {
 		switch mod {
 		case 0:
 			b.tx.Nonce++
-			return set("auth", "nonce+1/"+b.label, muxdrv.Sign(b.key, b.tx), b)
+			return set("auth", "nonce+1/"+b.label, sgn(b.key, b.tx), b)
 		case 1:
 			if b.tx.Nonce > 0 {
 				b.tx.Nonce--
 			} else {
 				b.tx.Nonce = math.MaxUint64
 			}
-			return set("auth", "nonce-1/"+b.label, muxdrv.Sign(b.key, b.tx), b)
+			return set("auth", "nonce-1/"+b.label, sgn(b.key, b.tx), b)
 		case 2:
 			b.tx.Nonce = r.U64() | 1<<40
-			return set("auth", "nonce-random/"+b.label, muxdrv.Sign(b.key, b.tx), b)
+			return set("auth", "nonce-random/"+b.label, sgn(b.key, b.tx), b)
 		case 3:
 			b.tx.Fee = muxdrv.Fee(c.bal(b.key)+1+uint64(r.Intn(3)), muxdrv.DefaultGas)
-			return set("auth", "fee>balance/"+b.label, muxdrv.Sign(b.key, b.tx), b)
+			return set("auth", "fee>balance/"+b.label, sgn(b.key, b.tx), b)
 		case 4:
 			// fee == balance passes authentication; most handlers then fail for lack of funds.
 			b.tx.Fee = muxdrv.Fee(c.bal(b.key), muxdrv.DefaultGas)
 			b.hkind = 0
-			return set("exec", "fee=balance/"+b.label, muxdrv.Sign(b.key, b.tx), b)
+			return set("exec", "fee=balance/"+b.label, sgn(b.key, b.tx), b)
 		default:
 			k := s.nobody
 			tx := muxdrv.TxTransfer(0, muxdrv.Fee(1+uint64(r.Intn(50)), muxdrv.DefaultGas), s.g.Accounts[0].Address, 100)
-			return set("auth", "unfunded-signer/transfer", muxdrv.Sign(k, tx), built{tx: tx, hkind: 2})
+			return set("auth", "unfunded-signer/transfer", sgn(k, tx), built{tx: tx, hkind: 2})
 		}
 	case p < 82: // unknown method / empty account with zero fee
 		k := c.plain()
 		if r.Chance(30) {
 			tx := muxdrv.TxTransfer(0, muxdrv.Fee(0, muxdrv.DefaultGas), s.g.Accounts[0].Address, 100)
-			return set("exec", "unfunded-signer-zero-fee/transfer", muxdrv.Sign(s.nobody, tx), built{tx: tx})
+			return set("exec", "unfunded-signer-zero-fee/transfer", sgn(s.nobody, tx), built{tx: tx})
 		}
 		m := []string{"staking.Nope", "nomodule.Method", "consensus.Other", "registry.registerentity", "x"}[r.Intn(5)]
 		tx := transaction.NewTransaction(c.nonce(k), c.fee(), transaction.MethodName(m), "body")
-		return set("route", "unknown-method/"+m, muxdrv.Sign(k, tx), built{tx: tx})
+		return set("route", "unknown-method/"+m, sgn(k, tx), built{tx: tx})
 	default: // decode failures
 		b := c.validBase()
 		if r.Chance(40) {
 			b = c.execFailingPick(false)
 		}
-		good := muxdrv.Sign(b.key, b.tx)
+		good := sgn(b.key, b.tx)
 		switch r.Intn(8) {
 		case 0:
 			return set("decode", "sig/other-chain", muxdrv.SignRaw(b.key, b.tx, muxdrv.TxRawContext("0000000000000000")), b)
@@ -1787,10 +1866,10 @@ func (c *gctx) genCase() *Case {
 			return set("decode", "garbage", r.Bytes(1+r.Intn(300)), b)
 		case 6:
 			big := transaction.NewTransaction(b.tx.Nonce, b.tx.Fee, b.tx.Method, r.Bytes(33000))
-			return set("decode", "oversized", muxdrv.Sign(b.key, big), b)
+			return set("decode", "oversized", sgn(b.key, big), b)
 		default:
 			tx := transaction.NewTransaction(b.tx.Nonce, b.tx.Fee, "", "body")
-			return set("decode", "empty-method", muxdrv.Sign(b.key, tx), b)
+			return set("decode", "empty-method", sgn(b.key, tx), b)
 		}
 	}
 }
@@ -1885,8 +1964,8 @@ func (s *scen) coqCase(cs *Case, ti txInfo, o *Obs) string {
 	if s.blockGas > 0 && o.Failed && strings.Contains(o.Log, fmt.Sprintf("limit: %d ", s.blockGas)) {
 		hk = 0 // it ran out of BLOCK gas, which the model does not have: the verdict is an input
 	}
-	in := fmt.Sprintf("(%s, %s, %s, %s, %s, %s, %s, %s, %s, %s, %s, %s)",
-		n(o.NonceB), bigN(o.BalB), bigN(minBal), coqout.Bool(ti.decoded), coqout.Bool(known),
+	in := fmt.Sprintf("(%s, %s, %s, %s, %s, %s, %s, %s, %s, %s, %s, %s, %s)",
+		n(s.minPrice), n(o.NonceB), bigN(o.BalB), bigN(minBal), coqout.Bool(ti.decoded), coqout.Bool(known),
 		n(ti.tx.Nonce), bigN(ti.fee), n(ti.gas), n(uint64(len(raw))), n(byteCost), coqout.List(costs), n(uint64(hk)))
 	authObs := o.NonceA != o.NonceB
 	out := fmt.Sprintf("(%s, %s, %s, %s, %s, %s)", coqout.Bool(o.Failed), coqout.Bool(authObs), n(o.NonceA), bigN(o.BalA), bigN(o.Paid), coqout.Bool(len(o.OtherDiff) > 0))
@@ -1973,6 +2052,7 @@ func main() {
 		if s.blockGas > 0 {
 			sum.Count("block_gas_history", fmt.Sprintf("displaced=%d", o.Displaced))
 		}
+		sum.Count("min_gas_price_history", fmt.Sprint(s.minPrice))
 		sum.Count("stage_aimed", cs.Stage)
 		sum.Count("stage_observed", stageObs)
 		sum.Count("height", fmt.Sprint(cs.Height))
@@ -2099,7 +2179,7 @@ func main() {
 					if b.label != lab {
 						continue
 					}
-					cs := &Case{Kind: "twin", Seed: s.seed, Blocks: s.N, Height: c.h, Pos: 0, Tx: hex.EncodeToString(muxdrv.Sign(b.key, b.tx)), Label: b.label, Stage: "exec", HKind: b.hkind}
+					cs := &Case{Kind: "twin", Seed: s.seed, Blocks: s.N, Height: c.h, Pos: 0, Tx: hex.EncodeToString(sgn(b.key, b.tx)), Label: b.label, Stage: "exec", HKind: b.hkind}
 					doTwin(s, cs)
 					sweepGas(s, cs, lastObs, lastTi, doTwin, func() (*Obs, txInfo) { return lastObs, lastTi }, sum)
 				}
@@ -2111,7 +2191,7 @@ func main() {
 				for i := 0; i < 100; i++ {
 					if i%2 == 0 {
 						bb := c.validBase()
-						txs = append(txs, hex.EncodeToString(muxdrv.Sign(bb.key, bb.tx)))
+						txs = append(txs, hex.EncodeToString(sgn(bb.key, bb.tx)))
 					} else if len(pool) > 0 {
 						txs = append(txs, pool[rng.Intn(len(pool))])
 					}
